@@ -374,11 +374,11 @@ def loadLine (md : ModelDef) (p g : List (String × Store)) (pt : String) (rule 
     | _, _ => none
   else none
 
-/-- the comparator of `SortPoliciesByPriority`: a priority that does not parse compares as
-    "less" whichever side it is on (kept as written; it is inconsistent on such values) -/
+/-- the comparator of `SortPoliciesByPriority` (after the repair): a priority that does not parse
+    is greater than every number -/
 def prioLess (pi : Nat) (r q : Rule) : Bool :=
   match atoi (r.getD pi "") with
-  | none => true
+  | none => false
   | some a =>
       match atoi (q.getD pi "") with
       | none => true
